@@ -15,6 +15,7 @@ from __future__ import annotations
 
 import copy
 import importlib
+import inspect
 import math
 import os
 from collections import Counter
@@ -93,6 +94,7 @@ STEP_LIMIT = {
 
 _ready = False
 _kernel_calls: Counter = Counter()
+_route_calls: Counter = Counter()
 
 
 # ----------------------------------------------------------------------------- is the Rust back-end really there?
@@ -140,7 +142,19 @@ def _require_rust():
     _ready = True
 
 
-def _call4(ctx, fname, make_args, kwargs):
+def _split_call(fn, args, npos):
+    """Call style.  npos None: every regular argument positional (as in the repository's tests).  npos = k: the first k
+    positional, the others by keyword under the names of the *public* function's signature (inspect.signature follows
+    functools.wraps to the documented Python function) - the style of docs/getting-started/performance.md."""
+    if npos is None or npos >= len(args):
+        return tuple(args), {}
+    names = [p.name for p in inspect.signature(fn).parameters.values() if p.kind in (p.POSITIONAL_ONLY, p.POSITIONAL_OR_KEYWORD)]
+    if len(names) < len(args):
+        raise HarnessError(f"C12: {fn.__name__} has {len(names)} regular parameters, the check passes {len(args)}")
+    return tuple(args[:npos]), {names[i]: args[i] for i in range(npos, len(args))}
+
+
+def _call4(ctx, fname, make_args, kwargs, npos=None):
     """The four calls.  Returns {backend: Result}."""
     _require_rust()
     modname, kernel = WHERE[fname]
@@ -148,6 +162,8 @@ def _call4(ctx, fname, make_args, kwargs):
     out = {}
     mutated = {}
     over = []
+    raised = {}
+    ctx.label("call-positional" if npos is None else "call-all-keyword" if npos == 0 else "call-mixed")
     for b in BACKENDS:
         kw = dict(kwargs)
         if b != "default":
@@ -155,11 +171,14 @@ def _call4(ctx, fname, make_args, kwargs):
         before = _kernel_calls[kernel]
         args = make_args()
         pristine = copy.deepcopy(args)
+        pos, named = _split_call(fn, args, npos)
         try:
             with budget.steps(STEP_LIMIT[fname]) as meter:
-                out[b] = ctx.call(fn, *args, **kw)
-        except Crash:
-            raise
+                out[b] = ctx.call(fn, *pos, **named, **kw)
+        except Crash as c:
+            # decided after the loop: an exception from every back-end is a crash, from some only a visible difference
+            raised[b] = c
+            continue
         except budget.StepBudgetExceeded:
             # e.g. an adapter that walks a cyclic predecessor array for ever (and would eat the memory while doing so)
             over.append(b)
@@ -176,9 +195,24 @@ def _call4(ctx, fname, make_args, kwargs):
         if b == "python":
             if used:
                 raise Violation(f"{fname}:python-backend-called-extension", {"backend": b})
-        elif not used:
-            raise HarnessError(f"C12: {fname}(backend={b!r}) returned without calling the extension; python would be compared with python")
+        else:
+            # An adapter may answer an input by itself (that is still the Rust route and is compared like any other
+            # answer); what must not happen is that the route NEVER reaches the extension, i.e. that backend='rust'
+            # quietly is the Python implementation.  Decided over the process, not per call.
+            _route_calls[fname] += 1
+            if not used:
+                ctx.count("rust-route-answered-without-kernel-call")
+                ctx.label("rust-route-answered-without-kernel-call")
+            if _route_calls[fname] >= 30 and _kernel_calls[kernel] == 0:
+                raise HarnessError(f"C12: {_route_calls[fname]} calls of {fname} with backend rust/default/auto and none reached the extension; python would be compared with python")
         ctx.count("extension-calls", used)
+    if raised:
+        if len(raised) == len(BACKENDS):
+            raise next(iter(raised.values()))
+        raise Violation(
+            f"{fname}:exception-from-some-backends-only",
+            {"raising": {b: f"{c.exc_type} at {c.where}: {c.msg}" for b, c in raised.items()}, "returned": _showall(out), "call_style": "positional" if npos is None else f"first {npos} positional, rest by keyword"},
+        )
     if over:
         if len(over) == len(BACKENDS):
             raise budget.StepBudgetExceeded(fname)  # nobody returns: inconclusive, not a statement about equivalence
@@ -389,15 +423,36 @@ def _draw_bundles(draw, wstrat):
     return n, edges, perm[0]
 
 
-def _draw_graph(draw, tier, wstrat=None, large_one_in=12, large_nmax=None):
+def _draw_heavy_dup(draw, wstrat=None, forward_only=False):
+    """(n, edges, root): 2..6 nodes, 1..4 distinct ordered pairs (forward_only: oriented along a drawn permutation, so the
+    graph is a DAG), every pair listed 2..4 times (each copy with its own drawn weight), shuffled.  The edge list is
+    longer than any simple graph on n nodes could make it (often > n(n-1)/2 edges) while the graph itself is tiny:
+    whatever reasons about len(edges) instead of the set of pairs goes wrong here."""
+    n = draw(st.integers(2, 6))
+    perm = draw(st.permutations(range(n)))
+    pos = st.integers(0, n - 1)
+    pairs = []
+    for a, b in draw(st.lists(st.tuples(pos, pos), min_size=1, max_size=4)):
+        if forward_only:
+            if a == b:
+                b = (a + 1) % n
+            a, b = min(a, b), max(a, b)
+        pairs.append((perm[a], perm[b]))
+    edges = []
+    for u, v in pairs:
+        for _ in range(draw(st.integers(2, 4))):
+            edges.append([u, v] + ([draw(wstrat)] if wstrat is not None else []))
+    return n, _shuffled(draw, edges), perm[0]
+
+
+def _draw_graph(draw, tier, wstrat=None, reps=1, large_nmax=None):
     """(family, n, edges, root).  uniform: drawn pairs.  backbone: an out-tree over a drawn permutation (every node hangs
     under its predecessor in the permutation or under an earlier one, so multi-hop routes from the root exist by
     construction) plus drawn extra pairs, shuffled; root = first node of the permutation.  braid, bundles (weighted
-    only), large: see _draw_braid, _draw_bundles, _draw_large (large: one case in `large_one_in`).
+    only), heavy-dup, large: see _draw_braid, _draw_bundles, _draw_heavy_dup, _draw_large (large: one case in 12*reps+1).
     root is None, a node, or a pair (source, far target) for the braid."""
-    base = ["uniform"] * 4 + ["backbone"] * 3 + ["braid"] * 2 + (["bundles"] * 2 if wstrat is not None else ["braid"])
-    fams = base * ((large_one_in - 1) // len(base))
-    fams += ["uniform"] * (large_one_in - 1 - len(fams)) + ["large"]
+    base = ["uniform"] * 4 + ["backbone"] * 3 + ["braid"] * 2 + (["bundles"] * 2 if wstrat is not None else ["braid", "uniform"]) + ["heavy-dup"]
+    fams = base * reps + ["large"]
     family = draw(st.sampled_from(fams))
     if family == "large":
         n, edges, root = _draw_large(draw, tier, wstrat, large_nmax)
@@ -407,6 +462,9 @@ def _draw_graph(draw, tier, wstrat=None, large_one_in=12, large_nmax=None):
         return family, n, edges, root
     if family == "bundles":
         n, edges, root = _draw_bundles(draw, wstrat)
+        return family, n, edges, root
+    if family == "heavy-dup":
+        n, edges, root = _draw_heavy_dup(draw, wstrat)
         return family, n, edges, root
     n = _draw_n(draw, tier)
     if family == "uniform" or n < 3:
@@ -436,13 +494,13 @@ def _draw_hairline(draw, tier):
     return n, _shuffled(draw, edges), cyc[0]
 
 
-def _draw_weighted(draw, tier, mode, large_one_in=24, large_nmax=None):
+def _draw_weighted(draw, tier, mode, reps=2, large_nmax=None):
     """(family, mode, n, edges, root)"""
     if mode == "hairline":
         n, edges, root = _draw_hairline(draw, tier)
         return "hairline", mode, n, edges, root
     wst = st.sampled_from(W_POS + W_POS + W_NEG if mode == "free" else W_POS)
-    family, n, edges, root = _draw_graph(draw, tier, wst, large_one_in, large_nmax)
+    family, n, edges, root = _draw_graph(draw, tier, wst, reps, large_nmax)
     if mode == "fewneg" and edges:
         for i in draw(st.lists(st.integers(0, len(edges) - 1), min_size=1, max_size=2)):
             edges[i][2] = draw(st.sampled_from(W_NEG))
@@ -497,9 +555,17 @@ def _draw_target(draw, n, source, edges, root=None):
 @st.composite
 def fw_cases(draw, tier):
     directed = draw(st.booleans())
+    if not directed and draw(st.integers(0, 5)) == 0:
+        # the caller has symmetrised the list himself: forward edges, then the same edges reversed in the same order -
+        # with independently drawn weights, so the two directions of an undirected edge may disagree (the minimum counts)
+        n = draw(st.integers(2, 6))
+        node = st.integers(0, n - 1)
+        fwd = draw(st.lists(st.tuples(node, node, st.sampled_from(W_POS)), min_size=1, max_size=6))
+        back = [[v, u, w if draw(st.booleans()) else draw(st.sampled_from(W_POS))] for u, v, w in fwd]
+        return {"n": n, "directed": False, "mode": "nonneg", "family": "mirrored-layout", "edges": [list(e) for e in fwd] + back}
     mode = draw(st.sampled_from(["nonneg", "nonneg", "potential", "potential", "fewneg", "free", "hairline"] if directed else ["nonneg", "nonneg", "nonneg", "fewneg"]))
     # large graphs stay <= 40 nodes here: the pure-Python triple loop and the exact all-pairs reference are cubic
-    family, mode, n, edges, _ = _draw_weighted(draw, tier, mode, large_one_in=40, large_nmax=40)
+    family, mode, n, edges, _ = _draw_weighted(draw, tier, mode, reps=3, large_nmax=40)
     return {"n": n, "directed": directed, "mode": mode, "family": family, "edges": edges}
 
 
@@ -562,7 +628,10 @@ def _binomial_case(draw):
 
 @st.composite
 def mst_cases(draw, tier):
-    family = draw(st.sampled_from(["sparse", "tree+extra", "tree+extra", "ties", "binomial", "binomial"] * 4 + ["large"]))
+    family = draw(st.sampled_from(["sparse", "tree+extra", "tree+extra", "ties", "binomial", "binomial"] * 4 + ["large", "heavy-dup", "heavy-dup"]))
+    if family == "heavy-dup":
+        n, edges, _ = _draw_heavy_dup(draw, st.sampled_from(W_POS + W_NEG))
+        return {"n": n, "family": family, "edges": edges, "allow_forest": draw(st.booleans()), "explicit": draw(st.booleans())}
     if family == "binomial":
         return _binomial_case(draw)
     if family == "large":
@@ -587,9 +656,13 @@ def mst_cases(draw, tier):
 
 @st.composite
 def pr_cases(draw, tier):
-    if draw(st.integers(0, 24)) == 24:
+    pick = draw(st.integers(0, 24))
+    if pick == 24:
         n, edges, _ = _draw_large(draw, tier, nmax=64)
         family = "large"
+    elif pick >= 22:
+        n, edges, _ = _draw_heavy_dup(draw)
+        family = "heavy-dup"
     else:
         n = _draw_n(draw, tier)
         edges = _draw_pairs(draw, n)
@@ -607,7 +680,10 @@ def pr_cases(draw, tier):
 
 @st.composite
 def scc_cases(draw, tier):
-    family = draw(st.sampled_from(["uniform", "planted"] * 6 + ["large"]))
+    family = draw(st.sampled_from(["uniform", "planted"] * 6 + ["large", "heavy-dup"]))
+    if family == "heavy-dup":
+        n, pairs, _ = _draw_heavy_dup(draw)
+        return {"n": n, "family": family, "edges": pairs}
     if family == "large":  # long paths / a tree with a few arbitrary extra edges: back edges close long cycles
         n, pairs, _ = _draw_large(draw, tier)
         return {"n": n, "family": family, "edges": pairs}
@@ -632,7 +708,10 @@ def scc_cases(draw, tier):
 
 @st.composite
 def topo_cases(draw, tier):
-    family = draw(st.sampled_from(["dag", "dag", "dag+1", "uniform"] * 3 + ["large"]))
+    family = draw(st.sampled_from(["dag", "dag", "dag+1", "uniform"] * 3 + ["dag-dup", "dag-dup", "large"]))
+    if family == "dag-dup":  # a tiny DAG whose edge list repeats every edge 2..4 times (more edges than n(n-1)/2, still acyclic)
+        n, pairs, _ = _draw_heavy_dup(draw, forward_only=True)
+        return {"n": n, "family": family, "edges": pairs}
     if family == "large":  # acyclic in 3 of 4 cases (noise edges oriented along the permutation), else arbitrary noise edges
         n, pairs, _ = _draw_large(draw, tier, forward_only=draw(st.integers(0, 3)) > 0)
         return {"n": n, "family": family, "edges": pairs}
@@ -660,7 +739,7 @@ def run_fw(desc, ctx):
     fname = "floyd_warshall"
     n, directed = desc["n"], desc["directed"]
     edges = [tuple(e) for e in desc["edges"]]
-    res = _call4(ctx, fname, lambda: (n, list(edges)), {"directed": directed})
+    res = _call4(ctx, fname, lambda: (n, list(edges)), {"directed": directed}, desc.get("npos"))
     A = G.apsp(n, edges, directed) if n <= 16 else G.apsp_by_source(n, edges, directed)
     dupanti = _pair_facts(ctx, n, [(u, v) for u, v, _ in edges], [w for *_, w in edges])
     ctx.label("directed" if directed else "undirected", f"mode-{desc['mode']}", f"family-{desc.get('family', 'uniform')}", "negative-cycle" if A is None else "no-negative-cycle")
@@ -765,7 +844,7 @@ def run_bf(desc, ctx):
     fname = "bellman_ford"
     n, s, t = desc["n"], desc["source"], desc["target"]
     edges = [tuple(e) for e in desc["edges"]]
-    res = _call4(ctx, fname, lambda: (s, list(edges), n), {} if t is None else {"target": t})
+    res = _call4(ctx, fname, lambda: (s, list(edges), n), {} if t is None else {"target": t}, desc.get("npos"))
     d = G.sssp(n, edges, s)
     dupanti = _pair_facts(ctx, n, [(u, v) for u, v, _ in edges], [w for *_, w in edges])
     ctx.label(f"mode-{desc['mode']}", "negative-cycle-reachable" if d is None else "no-reachable-negative-cycle")
@@ -780,7 +859,7 @@ def run_dj(desc, ctx):
     fname = "dijkstra_edges"
     n, s, t = desc["n"], desc["source"], desc["target"]
     edges = [tuple(e) for e in desc["edges"]]
-    res = _call4(ctx, fname, lambda: (n, list(edges), s), {} if t is None else {"target": t})
+    res = _call4(ctx, fname, lambda: (n, list(edges), s), {} if t is None else {"target": t}, desc.get("npos"))
     d = G.sssp(n, edges, s)
     dupanti = _pair_facts(ctx, n, [(u, v) for u, v, _ in edges], [w for *_, w in edges])
     unreach = _target_labels(ctx, desc, d)
@@ -792,7 +871,7 @@ def run_bfs(desc, ctx):
     fname = "bfs_edges"
     n, s, t = desc["n"], desc["source"], desc["target"]
     edges = [tuple(e) for e in desc["edges"]]
-    res = _call4(ctx, fname, lambda: (n, list(edges), s), {} if t is None else {"target": t})
+    res = _call4(ctx, fname, lambda: (n, list(edges), s), {} if t is None else {"target": t}, desc.get("npos"))
     lev = G.hops(n, edges, s)
     d = [None if x is None else Fraction(x) for x in lev]
     dupanti = _pair_facts(ctx, n, edges)
@@ -820,7 +899,7 @@ def run_dfs(desc, ctx):
     fname = "dfs_edges"
     n, s, t = desc["n"], desc["source"], desc["target"]
     edges = [tuple(e) for e in desc["edges"]]
-    res = _call4(ctx, fname, lambda: (n, list(edges), s), {} if t is None else {"target": t})
+    res = _call4(ctx, fname, lambda: (n, list(edges), s), {} if t is None else {"target": t}, desc.get("npos"))
     lev = G.hops(n, edges, s)
     reach = [i for i in range(n) if lev[i] is not None]
     dupanti = _pair_facts(ctx, n, edges)
@@ -896,7 +975,7 @@ def run_mst(desc, ctx):
     fname = "kruskal"
     n, af = desc["n"], desc["allow_forest"]
     edges = [tuple(e) for e in desc["edges"]]
-    res = _call4(ctx, fname, lambda: (n, list(edges)), {"allow_forest": af} if af or desc.get("explicit") else {})
+    res = _call4(ctx, fname, lambda: (n, list(edges)), {"allow_forest": af} if af or desc.get("explicit") else {}, desc.get("npos"))
     wmin, comps = G.msf(n, edges)
     dupanti = _pair_facts(ctx, n, [(u, v) for u, v, _ in edges], [w for *_, w in edges])
     ctx.label(f"family-{desc['family']}", "connected" if comps == 1 else "disconnected", "allow_forest" if af else "tree-only")
@@ -945,7 +1024,7 @@ def run_pr(desc, ctx):
             kw[k] = v
             eff[k] = v
     d, tol, mi = eff["damping"], eff["tol"], eff["max_iter"]
-    res = _call4(ctx, fname, lambda: (n, list(edges)), kw)
+    res = _call4(ctx, fname, lambda: (n, list(edges)), kw, desc.get("npos"))
     dupanti = _pair_facts(ctx, n, edges)
     outdeg = Counter(u for u, _ in edges)
     ctx.label(f"family-{desc.get('family', 'uniform')}", any(outdeg[v] == 0 for v in range(n)) and "dangling-node", f"max_iter={mi}" if mi <= 10 else "max_iter>10", f"damping={d}", f"tol={tol}")
@@ -989,7 +1068,7 @@ def run_scc(desc, ctx):
     fname = "strongly_connected_components_edges"
     n = desc["n"]
     edges = [tuple(e) for e in desc["edges"]]
-    res = _call4(ctx, fname, lambda: (n, list(edges)), {})
+    res = _call4(ctx, fname, lambda: (n, list(edges)), {}, desc.get("npos"))
     want = frozenset(G.scc_of(n, edges))
     dupanti = _pair_facts(ctx, n, edges)
     ctx.label(f"family-{desc['family']}", any(len(c) >= 3 for c in want) and "scc-size>=3", len(want) == n and "all-singletons", len(want) == 1 and n > 1 and "one-component")
@@ -1014,7 +1093,7 @@ def run_topo(desc, ctx):
     fname = "topological_sort_edges"
     n = desc["n"]
     edges = [tuple(e) for e in desc["edges"]]
-    res = _call4(ctx, fname, lambda: (n, list(edges)), {})
+    res = _call4(ctx, fname, lambda: (n, list(edges)), {}, desc.get("npos"))
     dag = G.acyclic(n, edges)
     dupanti = _pair_facts(ctx, n, edges)
     ctx.label(f"family-{desc['family']}", "acyclic" if dag else "cyclic")
@@ -1040,14 +1119,22 @@ def run_topo(desc, ctx):
     ctx.label(f"status-{stt}")
 
 
+# call style: all regular arguments positional (None), all by keyword (0), or the first k positional and the rest by keyword
+_NPOS = st.sampled_from([None, None, None, 0, 0, 1, 2])
+
+
+def _styled(cases):
+    return lambda tier: st.tuples(cases(tier), _NPOS).map(lambda t: {**t[0], "npos": t[1]})
+
+
 SUBS = [
-    Sub("floyd_warshall", run_fw, strategy=fw_cases, quick=1500, thorough=2500, workers_quick=2),
-    Sub("bellman_ford", run_bf, strategy=bf_cases, quick=1500, thorough=2500, workers_quick=2),
-    Sub("dijkstra_edges", run_dj, strategy=dj_cases, quick=1500, thorough=2500, workers_quick=2),
-    Sub("bfs_edges", run_bfs, strategy=trav_cases, quick=1500, thorough=2500, workers_quick=2),
-    Sub("dfs_edges", run_dfs, strategy=trav_cases, quick=1500, thorough=2500, workers_quick=2),
-    Sub("kruskal", run_mst, strategy=mst_cases, quick=1500, thorough=2500, workers_quick=2),
-    Sub("pagerank_edges", run_pr, strategy=pr_cases, quick=1500, thorough=2500, workers_quick=2),
-    Sub("strongly_connected_components_edges", run_scc, strategy=scc_cases, quick=1500, thorough=2500, workers_quick=2),
-    Sub("topological_sort_edges", run_topo, strategy=topo_cases, quick=1500, thorough=2500, workers_quick=2),
+    Sub("floyd_warshall", run_fw, strategy=_styled(fw_cases), quick=1500, thorough=2500, workers_quick=2),
+    Sub("bellman_ford", run_bf, strategy=_styled(bf_cases), quick=1500, thorough=2500, workers_quick=2),
+    Sub("dijkstra_edges", run_dj, strategy=_styled(dj_cases), quick=1500, thorough=2500, workers_quick=2),
+    Sub("bfs_edges", run_bfs, strategy=_styled(trav_cases), quick=1500, thorough=2500, workers_quick=2),
+    Sub("dfs_edges", run_dfs, strategy=_styled(trav_cases), quick=1500, thorough=2500, workers_quick=2),
+    Sub("kruskal", run_mst, strategy=_styled(mst_cases), quick=1500, thorough=2500, workers_quick=2),
+    Sub("pagerank_edges", run_pr, strategy=_styled(pr_cases), quick=1500, thorough=2500, workers_quick=2),
+    Sub("strongly_connected_components_edges", run_scc, strategy=_styled(scc_cases), quick=1500, thorough=2500, workers_quick=2),
+    Sub("topological_sort_edges", run_topo, strategy=_styled(topo_cases), quick=1500, thorough=2500, workers_quick=2),
 ]
